@@ -35,6 +35,6 @@ with open(os.path.join(V, 'seeded', 'INDEX.md'), 'w') as fh:
              '| seed | property | reported by | what the change does |\n|---|---|---|---|\n')
     for name, prop, caught, what in rows:
         fh.write(f'| {name} | {prop} | {caught} | {what[:220].replace("|", "/")} |\n')
-    n = len(rows); m = len([r for r in rows if r[2] != 'MISSED' and not r[2].startswith('PATCH DOES NOT')])
+    n = len(rows); m = len([r for r in rows if r[2] != 'MISSED' and not r[2].startswith('PATCH DOES NOT') and 'ANALYSIS-ERROR' not in r[2]])
     fh.write(f'\n{m} of {n} seeded changes are reported by the check of the property they break.\n')
 print('done')
